@@ -118,8 +118,9 @@ def t2(cx):
                 res.append(Finding(ID, 'T2', label, True, 'delay = deadline − now (%s)' % render(good[0]['value'])[:70], fn['span']))
         else:
             res.append(Finding(ID, 'T2', label, False, 'receives a deadline but never computes deadline − now', fn['span']))
-    if not cx.control and n < 6:
-        res.append(Finding(ID, 'T2', 'floor', False, 'only %d functions taking a deadline found, expected >= 6' % n))
+    if not cx.control and n < 5:
+        # the five public entry points: delay_at, delay_at_threads, delay_subscription_at, timer_at, interval_at (private helpers come and go)
+        res.append(Finding(ID, 'T2', 'floor', False, 'only %d functions taking a deadline found, expected >= 5' % n))
     return res
 
 
